@@ -145,6 +145,13 @@ def run(prop, tier):
         extra_eval += wl["hard_pairs"] + wl["auto_pairs"]
         tot["states"] += wl["states"]
         tot["generated"] += wl["generated"]
+    if prop in ("C01", "C02"):
+        from . import vf2trace
+        ve = vf2trace.collect_eq(prop, tier, rep, common.seed())
+        extra["eq_through_vf2_model"] = ve
+        extra_eval += ve["eq_runs"]
+        tot["states"] += ve["states"]
+        tot["generated"] += ve["generated"]
     if prop == "C05":
         from . import vf2trace
         mc = vf2trace.model_check(tier)
